@@ -429,7 +429,7 @@ func notEmptyObject(o *Object) bool {
 		o.Bto != nil ||
 		o.CC != nil ||
 		o.Context != nil ||
-		o.Duration > 0 ||
+		o.Duration != 0 ||
 		!o.EndTime.IsZero() ||
 		o.Generator != nil ||
 		o.Icon != nil ||
